@@ -77,12 +77,14 @@ func TestC02Rapid(t *testing.T) {
 				// a long-lived bridge: far more than a page of paid withdrawals
 				c02Bulk(rt, w, w.bridges[w.ids[0]], offered)
 				c.Class("bridge-with-more-than-100-paid-withdrawals")
+				if w.bulkPaid > 1000 {
+					c.Class("bridge-with-more-than-1000-paid-withdrawals")
+				}
 			}
 			if rapid.IntRange(0, 24).Draw(rt, "roundtrip") == 0 {
 				// the chain is exported and restarted from its genesis in the middle of the history:
 				// what has been paid stays paid
-				w.e = importL1(w.e, w.e.K.ExportGenesis(w.e.Ctx))
-				w.logf("genesis export -> import")
+				w.restart(rt)
 				c.Class("genesis-round-trip-inside-history")
 			}
 			pre := w.balances()
@@ -352,6 +354,9 @@ func TestC02Exhaustive(t *testing.T) {
 // pays every one of them.
 func c02Bulk(rt *rapid.T, w *l1World, b *mBridge, offered map[string]wd) {
 	n := rapid.IntRange(110, 160).Draw(rt, "bulkn")
+	if rapid.IntRange(0, 3).Draw(rt, "bulkHuge") == 0 {
+		n = rapid.IntRange(1001, 1030).Draw(rt, "bulkHugeN") // more than any page or batch size a reader of the claim records might use
+	}
 	var ts []wd
 	for i := 0; i < n; i++ {
 		t := wd{Bridge: b.ID, Seq: b.NextWdSeq, From: "bulk", To: w.users[i%len(w.users)].Str, Denom: "uinit", Amount: uint64(1 + i%7)}
@@ -375,8 +380,8 @@ func c02Bulk(rt *rapid.T, w *l1World, b *mBridge, offered map[string]wd) {
 	o.Index, o.L2Block, o.At, o.Height = idx, prev+1, w.e.Ctx.BlockTime(), w.e.Ctx.BlockHeight()
 	b.Outputs = append(b.Outputs, o)
 	w.e.AdvanceTo(o.At.Add(b.Period))
-	w.e.Fund(escrowAddr(b.ID), coinOf("uinit", 2000))
-	b.addLedger("uinit", math.NewInt(2000))
+	w.e.Fund(escrowAddr(b.ID), coinOf("uinit", 10000))
+	b.addLedger("uinit", math.NewInt(10000))
 	for i, t := range ts {
 		if res := w.e.Deliver(claimMsg(w.users[0].Str, t, o, idx, i)); res.OK() {
 			b.Paid[t.key()] = true
@@ -386,5 +391,6 @@ func c02Bulk(rt *rapid.T, w *l1World, b *mBridge, offered map[string]wd) {
 			rt.Fatalf("C02 setup: bulk claim %d rejected: %v", i, res.Err)
 		}
 	}
+	w.bulkPaid = n
 	w.logf("bulk: %d withdrawals paid on bridge %d through output %d", n, b.ID, idx)
 }
